@@ -32,6 +32,20 @@ from framework import Prop, canon_json
 
 FIXED = os.environ.get("C12_RULE", "fixed") != "orig"
 
+
+def _fixed_findings():
+    """ids of the C12 findings that are recorded as fixed: the model / the clauses follow the repaired code for them"""
+    import json
+    try:
+        p = os.path.join(os.path.dirname(os.path.dirname(os.path.dirname(os.path.abspath(__file__)))), "known_findings.json")
+        return {f["id"] for f in json.load(open(p))["findings"] if f.get("property") == "C12" and f.get("status") == "fixed"}
+    except Exception:
+        return set()
+
+
+FIX_C = "DC12c" in _fixed_findings()  # set-memory-space only re-uses a cast that dominates the use (fixes/FC12c-…)
+FIX_D = "DC12d" in _fixed_findings()  # transform_constant refuses layouts with an offset (fixes/FC12d-…)
+
 T1 = 'memref<64xi32, "L1">'
 T3 = 'memref<64xi32, "L3">'
 T1L = 'memref<64xi32, #tsl.tsl<[4, 16] -> (16, 1)>, "L1">'
@@ -1048,6 +1062,72 @@ def simulate_pipe(module, trips, tbl):
     return s.log, obs
 
 
+def pipe_ids(case):
+    return {n: i for i, n in enumerate(PIPE16 + PIPE8 + sorted(case["subs"]))}
+
+
+def pipe_model_body(case):
+    ids = pipe_ids(case)
+
+    def conv(items):
+        out = []
+        for it in items:
+            if it[0] == "for":
+                out.append(["loop", conv(it[1])])
+            elif it[0] == "op":
+                out.append(["op", [ids[it[2]], ids[it[3]], ids[it[4]]]])
+            else:
+                out.append(["op", []])  # a host copy: occupies a position, needs no cast
+        return out
+    return conv(case["body"])
+
+
+def pipe_cast_assignment(case, src):
+    """run set-memory-space alone; for every operand of every accelerator op: [path of the op, value id, position of the
+    memory_space_cast that feeds it] (positions = paths over the original items: casts and subviews are not counted)"""
+    from xdsl.dialects import func, linalg, memref, scf
+    from xdsl.ir import BlockArgument
+    from snaxc.transforms.set_memory_space import SetMemorySpace
+    m = snaxrun.parse(src)
+    SetMemorySpace().apply(snaxrun.fresh_ctx(), m)
+    ids = pipe_ids(case)
+    f = [o for o in m.walk() if isinstance(o, func.FuncOp)][0]
+    pos = {}
+
+    def number(block, pre):
+        k = 0
+        pending = []
+        for op in block.ops:
+            if isinstance(op, memref.MemorySpaceCastOp):
+                pending.append(op)
+            elif isinstance(op, (linalg.GenericOp, memref.CopyOp, scf.ForOp)):
+                pos[op] = pre + [k]
+                for c in pending:
+                    pos[c] = pre + [k]
+                pending = []
+                if isinstance(op, scf.ForOp):
+                    number(op.body.block, pre + [k])
+                k += 1
+    number(f.body.block, [])
+
+    def name_of(v):
+        if isinstance(v, BlockArgument):
+            return (PIPE16 + PIPE8)[v.index]
+        o = v.owner
+        assert isinstance(o, memref.SubviewOp)
+        off = o.static_offsets.get_values()[0]
+        return ("lo_" if off == 0 else "hi_") + name_of(o.source)
+    out = []
+    for op in f.walk():
+        if isinstance(op, linalg.GenericOp):
+            for v in op.operands:
+                if isinstance(v.owner, memref.MemorySpaceCastOp):
+                    out.append([pos[op], ids[name_of(v.owner.source)], pos.get(v.owner)])
+                else:
+                    out.append([pos[op], None, None])
+    return out
+
+
 def impl_pipe(case):
     src = pipe_src(case)
     try:
@@ -1055,6 +1135,12 @@ def impl_pipe(case):
         before.verify()
     except Exception as e:
         return {"invalid_input": f"{type(e).__name__}: {str(e)[:100]}"}
+    res = impl_pipe_sem(case, src, before)
+    res["casts"] = pipe_cast_assignment(case, src)
+    return res
+
+
+def impl_pipe_sem(case, src, before):
     try:
         after = snaxrun.parse(snaxrun.run_passes(src, "set-memory-space,realize-memref-casts"))
         after.verify()
@@ -1081,11 +1167,14 @@ def impl_pipe(case):
 
 
 def classify_pipe(case):
-    """Clauses violated by the program, following where the UNCHANGED set-memory-space puts the (single, shared) L1 cast of
-    a value: directly in front of its first accelerator use in walk order.
-    c: a later use lies outside the block of the first use (DC12c, invalid IR);  a: the last use as output is nested
-    deeper than the cast (DC12a);  b: the memory of the value is touched through another path between the first use and the
-    end of the item holding the last use (DC12b)."""
+    """Clauses violated by the program, following where set-memory-space puts the L1 casts of a value. Code as found:
+    ONE cast per value, directly in front of its first accelerator use in walk order, shared by all uses. With FC12c: a
+    use re-uses a cast only if the cast dominates it, otherwise it gets a new cast in front of itself (a group of uses
+    per cast).
+    c: a later use lies outside the block of the cast (DC12c, invalid IR; code as found only);  a: the last use as
+    output of a cast is nested deeper than the cast (DC12a);  b: the memory of the value is touched through another
+    path - another value, a host copy, another cast of the same value - between the first use of a cast and the end of
+    the item holding its last use (DC12b)."""
     flat = []
 
     def walk(items, path):
@@ -1098,9 +1187,29 @@ def classify_pipe(case):
                 flat.append((path + [i], "hcopy", [it[1]], [it[2]]))
     walk(case["body"], [])
     tags = set()
-    vals = {v for e in flat if e[1] == "op" for v in e[2] + e[3]}
+    vals = sorted({v for e in flat if e[1] == "op" for v in e[2] + e[3]})
+    group_of = {}  # (entry index, value) -> group id
+    groups = []    # (value, [entry indices])
     for v in vals:
         uses = [i for i, e in enumerate(flat) if e[1] == "op" and v in e[2] + e[3]]
+        mine = []
+        for i in uses:
+            path = flat[i][0]
+            home = None
+            for g in mine:
+                first = flat[groups[g][1][0]][0]
+                P = first[:-1]
+                if not FIX_C or (path[:len(P)] == P and path[len(P)] >= first[-1]):
+                    home = g
+                    break
+            if home is None:
+                groups.append((v, [i]))
+                home = len(groups) - 1
+                mine.append(home)
+            else:
+                groups[home][1].append(i)
+            group_of[(i, v)] = home
+    for g, (v, uses) in enumerate(groups):
         P = flat[uses[0]][0][:-1]
         if any(flat[i][0][:len(P)] != P for i in uses):
             tags.add("c")
@@ -1115,7 +1224,8 @@ def classify_pipe(case):
         for i in range(uses[0], hi + 1):
             path, kind, r, w = flat[i]
             for x in r + w:
-                if (x != v and pipe_cells(x) & pipe_cells(v)) or (x == v and kind == "hcopy"):
+                if (x != v and pipe_cells(x) & pipe_cells(v)) or (x == v and kind == "hcopy") or \
+                        (x == v and kind == "op" and group_of[(i, v)] != g):
                     tags.add("b")
     return tags
 
@@ -1252,9 +1362,10 @@ class C12(Prop):
         if k == "glob" and (case.get("strided") or case.get("root") == "uninit"):
             return []  # `dest layout is not tsl`: not transformed; an uninitialised global is always re-typed
         if k == "pipe":
-            return []
+            return [{"fn": "c12.assignCasts", "args": {"fixed": FIX_C, "body": pipe_model_body(case)}}]
         if k in ("const", "glob"):
-            return [{"fn": "c12.transformConstant", "args": {"data": case["data"], "layout": {"ts": case["ts"], "offset": case["offset"]}}}]
+            return [{"fn": "c12.transformConstant", "args": {"data": case["data"], "refuse_offset": FIX_D,
+                                                             "layout": {"ts": case["ts"], "offset": case["offset"]}}}]
         if k == "transpose":
             return [{"fn": "c12.transposeTuple", "args": {"a": case["a"], "cols": case["cols"], "rows": case["rows"]}}]
         if k == "memspace":
@@ -1274,6 +1385,7 @@ class C12(Prop):
                 reqs.append({"fn": "c12.realize", "args": {"fixed": FIXED, "blk": p["before"]}})
                 reqs.append({"fn": "c12.chk", "args": {"src": p["src"], "alloc": p["alloc"],
                                                        "blk": p["after"] if p["after"] is not None else []}})
+                reqs.append({"fn": "c12.syntactic", "args": {"src": p["src"], "alloc": p["alloc"], "blk": p["before"]}})
             return reqs
         raise ValueError(k)
 
@@ -1282,7 +1394,10 @@ class C12(Prop):
         if "invalid_input" in impl_out:
             return impl_out
         if k == "pipe":
-            return {"oracle_only": True}
+            a = answers[0]
+            if "err" in a:
+                return {"model_error": a["err"]}
+            return {"casts": a["ok"]}
         if k == "glob":
             if case.get("root") == "uninit":
                 return {"out": "uninitialised", "operands": predict_glob(case, True)}
@@ -1321,10 +1436,10 @@ class C12(Prop):
                 return {"model": "no per-cast data"}
             per = []
             for i, p in enumerate(impl_out["per"]):
-                a, c = answers[2 * i], answers[2 * i + 1]
-                if "err" in a or "err" in c:
-                    return {"model_error": a.get("err") or c.get("err")}
-                per.append({**p, "after": a["ok"], "accepted": c["ok"]})
+                a, c, y = answers[3 * i], answers[3 * i + 1], answers[3 * i + 2]
+                if "err" in a or "err" in c or "err" in y:
+                    return {"model_error": a.get("err") or c.get("err") or y.get("err")}
+                per.append({**p, "after": a["ok"], "accepted": c["ok"], "syntactic": y["ok"]})
             return {"per": per}
         raise ValueError(k)
 
@@ -1334,7 +1449,10 @@ class C12(Prop):
                 return None
             return "the real code raised, the model did not (or another exception)"
         if case["kind"] == "pipe":
-            return None  # end-to-end kind: judged by the oracle only
+            # model side: where set-memory-space puts / re-uses the L1 casts; the lowering as a whole is judged by the oracle
+            if "casts" in impl_out and canon_json(impl_out["casts"]) != canon_json(model_out.get("casts")):
+                return "set-memory-space: the cast feeding some operand differs from the model (assignCasts)"
+            return None
         if case["kind"] == "glob" and "out" in impl_out:
             if canon_json(impl_out["out"]) != canon_json(model_out.get("out", "?")):
                 return "data of the re-laid-out root differs from the model's transformConstant"
@@ -1350,6 +1468,15 @@ class C12(Prop):
         for pi, pm in zip(impl_out["per"], model_out["per"]):
             if canon_json(pi["after"]) != canon_json(pm["after"]):
                 return f"placement of the copies for {pi['cast']} differs from the model rule"
+        for pm in model_out["per"]:
+            if pm["syntactic"] and not pm["accepted"]:  # C12_placement_accepted says this cannot happen
+                return f"the syntactic clauses hold for {pm['cast']} but the Lean checker rejects the real placement"
+        if not FIXED:
+            pass
+        elif not classify(case) and not all(pm["syntactic"] for pm in model_out["per"]):
+            return "the harness finds no violated clause but some cast does not satisfy the syntactic clauses (Lean synB)"
+        elif all(pm["syntactic"] for pm in model_out["per"]) and classify(case):
+            return f"the harness attributes the program to {sorted(classify(case))} but every cast satisfies the syntactic clauses"
         if all(pm["accepted"] for pm in model_out["per"]) and impl_out["sem"] is not None:
             return "the Lean checker accepts the real output for every cast but the interpreter sees a difference"
         if impl_out["casts_left_with_uses"]:
